@@ -228,6 +228,45 @@ def reconnect_tables_task(tier, seed):
                                          "lines": None, "paths": 1, "wall": round(time.time() - t0, 3)}}
 
 
+def resend_order_task(tier, seed):
+    """Mailbox._drain re-submits the pending messages in the order they were added (Python dicts iterate in insertion order): the
+    loop must run over the dict itself.  The symbolic dict model has no iteration order (loops over dicts are verified for
+    an arbitrary order), so this clause is decided on the loop header of the real function: an order-destroying wrapper
+    (sorted / reversed / set ...) fails it, a form this check does not recognise is undecided."""
+    import ast
+    import time
+    from pyvc import source
+    from pyvc.runner import ob
+    t0 = time.time()
+    fd = source.find_func("wormhole/_mailbox.py:Mailbox._drain")
+    name = "wormhole/_mailbox.py:Mailbox._drain.resubmits-in-insertion-order"
+    status, why = "unknown", "no loop over self._pending_outbound found"
+    if fd is not None:
+        loops = [n for n in ast.walk(fd.node) if isinstance(n, (ast.For, ast.comprehension))]
+        for lp in loops:
+            it_ = lp.iter
+            txt = ast.unparse(it_)
+            if "_pending_outbound" not in txt:
+                continue
+            plain = {"self._pending_outbound", "self._pending_outbound.items()", "self._pending_outbound.keys()",
+                     "list(self._pending_outbound)", "list(self._pending_outbound.items())", "list(self._pending_outbound.keys())",
+                     "tuple(self._pending_outbound.items())", "self._pending_outbound.copy().items()",
+                     "dict(self._pending_outbound).items()"}
+            bad = ("sorted(", "reversed(", "set(", "frozenset(", "random.", "shuffle", "[::-1]", "heapq", "max(", "min(")
+            if txt in plain:
+                status, why = "discharged", f"iterates {txt}"
+            elif any(b in txt for b in bad):
+                status, why = "failed", f"iterates {txt}: not the insertion order"
+            else:
+                status, why = "unknown", f"iterates {txt}: not a form this check recognises"
+            break
+    o = ob(name, status, "evaluation", 0.0, False, None,
+           {"kind": "data", "definite": True, "src": "Mailbox._drain iterates the re-send dict itself (insertion order: 'version' "
+                                                     f"before any data phase) - {why}"}, smt_hash=name)
+    return {"obligations": [o], "info": {"target": "wormhole/_mailbox.py:Mailbox._drain <loop header>", "sha": fd.sha if fd else None,
+                                         "lines": None, "paths": 1, "wall": round(time.time() - t0, 3)}}
+
+
 def tasks():
     import os
     from pyvc.runner import FuncTask
@@ -237,7 +276,8 @@ def tasks():
               t.contract.target.endswith(("Mailbox.queue", "Mailbox.dequeue", "Mailbox.RC_tx_add", "Mailbox.rx_message",
                                           "Mailbox.N_release_and_accept"))]
     return [ContractTask(c, regf) for c in CONTRACTS] + [ContractTask(c, regf_machine) for c in MACHINE_CONTRACTS] + shared + \
-        [FuncTask("reconnect-tables", reconnect_tables_task, True, "data")] + \
+        [FuncTask("reconnect-tables", reconnect_tables_task, True, "data"),
+         FuncTask("resend-order", resend_order_task, True, "data")] + \
         ([] if nocl else [ClusterTask("mailbox-cluster", "props.mailbox", "engine", select, "mailbox_history:search")])
 
 
